@@ -46,7 +46,7 @@ pub fn gen_tcase(rng: &mut Rng, with_unsub: bool, sched_ops: bool) -> TCase {
     sched_weight: if sched_ops { 2 } else { 0 },
     // time-driven operators need virtual time to pass; keep the ones whose
     // tasks are immediately runnable or short
-    exclude: if sched_ops { vec![] } else { vec!["GroupFlat", "GroupLast"] },
+    exclude: if sched_ops { vec![] } else { vec!["GroupFlat", "GroupLast", "GroupTap"] },
     allow_flat: true,
     producer_leaves: false,
   };
@@ -320,7 +320,7 @@ impl Scenario for C16Threads {
   }
   fn generate(&self, rng: &mut Rng, _tier: Tier) -> Value {
     let n_hot = rng.range(1, 2);
-    let cfg = GenCfg { max_depth: 2, n_hot, sched_weight: 1, exclude: vec!["Share", "GroupFlat", "GroupLast"], allow_flat: true, producer_leaves: true };
+    let cfg = GenCfg { max_depth: 2, n_hot, sched_weight: 1, exclude: vec!["Share", "GroupFlat", "GroupLast", "GroupTap"], allow_flat: true, producer_leaves: true };
     let root = loop {
       let sub = gen_node(rng, &cfg, 1);
       let small = rng.below(3) as u8;
@@ -437,7 +437,7 @@ impl Scenario for C10Share {
   }
   fn generate(&self, rng: &mut Rng, _tier: Tier) -> Value {
     let n_hot = rng.range(1, 2);
-    let cfg = GenCfg { max_depth: 1, n_hot, sched_weight: 0, exclude: vec!["GroupFlat", "GroupLast", "Share"], allow_flat: true, producer_leaves: false };
+    let cfg = GenCfg { max_depth: 1, n_hot, sched_weight: 0, exclude: vec!["GroupFlat", "GroupLast", "GroupTap", "Share"], allow_flat: true, producer_leaves: false };
     let root = loop {
       let r = gen_node(rng, &cfg, 0);
       if r.valid(0) && r.size() <= 5 && r.op_names().iter().any(|n| n == "Hot") && !r.uses_scheduler() {
@@ -638,7 +638,7 @@ impl Scenario for C17Threads {
     let n_hot = 1;
     // no flattening here: asking a merge_all composite from a foreign thread is
     // outside what C17 states (and C10 does not list is_closed among its operations)
-    let cfg = GenCfg { max_depth: 2, n_hot, sched_weight: 4, exclude: vec!["GroupFlat", "GroupLast", "Share"], allow_flat: false, producer_leaves: false };
+    let cfg = GenCfg { max_depth: 2, n_hot, sched_weight: 4, exclude: vec!["GroupFlat", "GroupLast", "GroupTap", "Share"], allow_flat: false, producer_leaves: false };
     let root = loop {
       let r = gen_node(rng, &cfg, 0);
       if r.valid(0) && r.size() <= 5 && r.op_names().iter().any(|n| n == "Hot") {
